@@ -96,7 +96,7 @@ STORES = ('bits', 'uint', 'bit', 'bytes', 'ref', 'cell', 'slice', 'maybe_ref', '
 CELL_DERIVES = ('begin_parse', 'to_slice', 'from_cell', 'to_builder', 'copy')
 SLICE_DERIVES = ('to_cell', 'copy', 'to_builder')
 BUILDER_DERIVES = ('to_slice', 'end_cell', 'to_cell')
-OBS = ('hash', 'get_hash', 'boc', 'order', 'repr_hash', 'repr', 'str', 'dict', 'tlb')
+OBS = ('hash', 'get_hash', 'boc', 'order', 'repr_hash', 'repr', 'str', 'dict', 'tlb', 'vmwin', 'vmwin')
 TLB = ('MessageAny', 'Account', 'StateInit', 'Transaction', 'VmStack', 'ShardAccount', 'InternalMsgInfo', 'InMsg')
 STR_MAX_PATHS = 400     # str(cell) prints the TREE (one line per path): only called on cells with few paths
 
@@ -425,7 +425,8 @@ def _opname(op):
         return 'builder.' + op['how']
     if k == 'obs':
         w = op['what']
-        return {'boc': 'to_boc', 'dict': 'dict-parse', 'tlb': 'tlb-parse', 'repr_hash': 'calculate_representation_hash'}.get(w, w)
+        return {'boc': 'to_boc', 'dict': 'dict-parse', 'tlb': 'tlb-parse', 'repr_hash': 'calculate_representation_hash',
+                'vmwin': 'vmstack-parse-of-windowed-slice'}.get(w, w)
     if k == 'vmstack':
         return 'VmStack.serialize'
     if k == 'hashmap':
@@ -831,7 +832,46 @@ class _World:
             cls = L.tlb(TLB[k % len(TLB)])
             call(lambda: cls.deserialize(c.begin_parse()))
             return None, None, None
+        if what == 'vmwin':
+            return self._obs_vmwin(c, k if isinstance(k, list) else [k, 0, 0, 0], name)
         raise ValueError(what)
+
+    def _obs_vmwin(self, c, k, name):
+        """a VmStack cell holding ONE slice value that is a WINDOW of the pooled cell (st_bits..end_bits, st_ref..end_ref, as
+        the schema allows and TVM produces; the library's own writer always writes the full window) is parsed, the parsed
+        slice is read from, and the stack cell is parsed again: the pooled cell (invariant I1), the stack cell and the second
+        result are what they were"""
+        L = self.L
+        nb, nr = len(c.bits), len(c.refs)
+        sb = k[0] % (nb + 1)
+        eb = sb + k[1] % (nb - sb + 1)
+        sr = k[2] % (nr + 1)
+        er = sr + k[3] % (nr - sr + 1)
+        ok, stack = call(lambda: L.Builder().store_uint(1, 24).store_ref(L.Builder().end_cell())
+                         .store_uint(4, 8).store_ref(c).store_uint(sb, 10).store_uint(eb, 10).store_uint(sr, 3).store_uint(er, 3).end_cell())
+        if not ok:
+            return None, None, None
+        before = (stack.hash, stack.to_boc(), [r.hash for r in stack.refs])
+        VmStack = L.tlb('VmStack')
+
+        def canon(res):
+            return [(x.bits.to01(), [r.hash.hex() for r in x.refs[x.ref_offset:]]) if isinstance(x, L.Slice) else repr(x) for x in res]
+        ok1, r1 = call(lambda: VmStack.deserialize(stack.begin_parse()))
+        c1 = canon(r1) if ok1 else 'raised'
+        if ok1:                                   # the caller reads from what it was given
+            for x in r1:
+                if isinstance(x, L.Slice):
+                    call(lambda: x.load_bits(min(3, len(x.bits))))
+                    call(x.load_ref)
+                    call(lambda: x.skip_bits(len(x.bits)))
+        ok2, r2 = call(lambda: VmStack.deserialize(stack.begin_parse()))
+        c2 = canon(r2) if ok2 else 'raised'
+        if (stack.hash, stack.to_boc(), [r.hash for r in stack.refs]) != before:
+            return Fail(f'{name}/stack-cell-changed-by-parsing', f'{self._at()}: window bits {sb}..{eb} refs {sr}..{er} of a cell with '
+                        f'{nb} bits / {nr} refs'), None, c1
+        if c1 != c2:
+            return Fail(f'{name}/second-parse-differs', f'{self._at()}: window bits {sb}..{eb} refs {sr}..{er}: {_clip(c1)} then {_clip(c2)}'), None, c1
+        return None, None, c1
 
     def _obs_order(self, e, ci, k):
         c = e['o']
@@ -1223,6 +1263,8 @@ def _g_obs(draw, m, ci=None, what=None):
         op['k'] = [draw(st.integers(0, 2)), draw(st.sampled_from([1, 2, 8, 8, 8, 16, 32, 256]))]
     elif what == 'tlb':
         op['k'] = draw(st.integers(0, len(TLB) - 1))
+    elif what == 'vmwin':
+        op['k'] = [draw(st.sampled_from([0, 0, 1, 7])), draw(st.integers(0, 1023)), draw(st.integers(0, 4)), draw(st.sampled_from([0, 1, 2, 3, 4, 4]))]
     return op
 
 
